@@ -128,7 +128,7 @@ theorem structOK_at {o : Opts} {fs : List (FieldHdr × GoType)} (hs : structOK o
 theorem fieldOKAt_other {o : Opts} {fs : List (FieldHdr × GoType)} {h : FieldHdr} {p : Nat} {k : Bytes}
     (hf : fieldOKAt o fs h p = true) (hk : idxKeyOf h = some k) {q : Nat} {h' : FieldHdr} {t' : GoType}
     (hq : fs[q]? = some (h', t')) (hne : q ≠ p) :
-    (∀ pk', planKeyOf o h' = some pk' → pk' ∉ triedKeys o h k) ∧ idxKeyOf h' ≠ some k := by
+    (∀ pk', planKeyOf o h' = some pk' → pk' ∉ triedKeys o fs h k) ∧ idxKeyOf h' ≠ some k := by
   simp only [fieldOKAt, hk, Bool.and_eq_true] at hf
   have := (List.all_eq_true.1 hf.2.2) ((h', t'), q) (List.mem_zipIdx_iff_getElem?.2 hq)
   simp only [Bool.or_eq_true, beq_iff_eq, hne, false_or, Bool.and_eq_true, bne_iff_ne, ne_eq] at this
@@ -136,11 +136,10 @@ theorem fieldOKAt_other {o : Opts} {fs : List (FieldHdr × GoType)} {h : FieldHd
   intro pk' hpk hmem
   have h1 := this.1
   rw [hpk] at h1
-  simp only [Bool.not_eq_true', ] at h1
+  simp only [Bool.not_eq_true'] at h1
   have := List.contains_iff_mem.2 hmem
   rw [this] at h1
   cases h1
-
 
 /-! ### the field index of a struct without embedded fields -/
 
@@ -235,26 +234,33 @@ theorem isIface_match (enc : Bool → GoType → GoVal → JV) (t : GoType) (x :
       | _ => [(key, enc false t x)]) = [(key, enc (isIface t) t x)] := by
   cases t <;> rfl
 
+/-- what a written field's member holds: the text of a bool / integer / float under the `,string`
+option in force, otherwise the encoding of the value -/
+def memberJV (o : Opts) (enc : Bool → GoType → GoVal → JV) (h : FieldHdr) (t : GoType) (x : GoVal) : JV :=
+  match (if asStrOf o h then scalarText x else none) with
+  | some s => .str s
+  | none => enc (isIface t) t x
+
 theorem refField_eq (o : Opts) (enc : Bool → GoType → GoVal → JV) (h : FieldHdr) (t : GoType) (x : GoVal)
-    (hu : unexported h.name = false) (hs : asStrOf o h = false) :
+    (hu : unexported h.name = false) :
     refField o enc h t x =
       match planKeyOf o h with
       | none => []
-      | some pk => if tagOmitOf o h && isEmptyVal x then [] else [(pk, enc (isIface t) t x)] := by
-  unfold asStrOf at hs
+      | some pk => if tagOmitOf o h && isEmptyVal x then [] else [(pk, memberJV o enc h t x)] := by
+  unfold memberJV asStrOf
   unfold refField planKeyOf tagOmitOf
   rw [show (if (o.useTags && !h.tag.isEmpty) = true then parseTag h.tag else some ([], false, false)) = tagView o h from rfl]
-  revert hs
   generalize tagView o h = tv
-  intro hs
   cases tv with
   | none => simp [hu]
   | some r =>
     obtain ⟨p, tagOmit, asStr⟩ := r
-    simp only at hs
-    subst hs
     simp only [hu, Bool.false_eq_true, ↓reduceIte]
-    cases t <;> rfl
+    split
+    · rfl
+    · cases hst : (if asStr = true then scalarText x else none) with
+      | some s => rfl
+      | none => cases t <;> rfl
 
 theorem refPass_mem (o : Opts) (enc : Bool → GoType → GoVal → JV)
     (sub : List (FieldHdr × GoType) → List GoVal → List (Bytes × JV)) (vs : List GoVal) :
@@ -316,34 +322,28 @@ theorem refPass_mem (o : Opts) (enc : Bool → GoType → GoVal → JV)
 
 /-! ### which member the recomposer picks for an index entry -/
 
-theorem fieldDatum_none (vm : List (Bytes × JV)) (k : Bytes) (e : IdxEntry)
-    (hn : ∀ c ∈ candidates k e.name, jvLookup vm c = none) : fieldDatum vm k e = none := by
-  simp only [fieldDatum, hn k (by simp [candidates]), hn e.name (by simp [candidates]),
-    hn (lowerFirst e.name) (by simp [candidates]), hn (asciiLowerAll (lowerFirst e.name)) (by simp [candidates])]
+theorem otherLookup_none (im : List (Bytes × IdxEntry)) (vm : List (Bytes × JV)) (k c : Bytes)
+    (h : (c = k ∨ claimedName im k c = false) → jvLookup vm c = none) : otherLookup im vm k c = none := by
+  unfold otherLookup
+  cases hc : claimedName im k c with
+  | true => rfl
+  | false => simp only [Bool.false_eq_true, ↓reduceIte]; exact h (Or.inr hc)
 
-theorem fieldDatum_some (vm : List (Bytes × JV)) (k : Bytes) (e : IdxEntry) (pk : Bytes) (m0 : JV)
-    (hs : jvLookup vm pk = some m0) (hin : pk ∈ candidates k e.name)
-    (hn : ∀ c ∈ candidates k e.name, c ≠ pk → jvLookup vm c = none) : fieldDatum vm k e = some m0 := by
-  simp only [fieldDatum]
-  by_cases h1 : k = pk
-  · rw [h1, hs]
-  · rw [hn k (by simp [candidates]) h1]
-    by_cases h2 : e.name = pk
-    · rw [h2, hs]
-    · rw [hn e.name (by simp [candidates]) h2]
-      by_cases h3 : lowerFirst e.name = pk
-      · rw [h3, hs]
-      · rw [hn (lowerFirst e.name) (by simp [candidates]) h3]
-        by_cases h4 : asciiLowerAll (lowerFirst e.name) = pk
-        · rw [h4, hs]
-        · exfalso
-          simp only [candidates, List.mem_cons, List.not_mem_nil, or_false] at hin
-          rcases hin with h | h | h | h
-          · exact h1 h.symm
-          · exact h2 h.symm
-          · exact h3 h.symm
-          · exact h4 h.symm
+theorem otherLookup_some (im : List (Bytes × IdxEntry)) (vm : List (Bytes × JV)) (k c : Bytes) (m0 : JV)
+    (hok : c = k ∨ claimedName im k c = false) (hs : jvLookup vm c = some m0)
+    (hk : jvLookup vm k = none) : otherLookup im vm k c = some m0 := by
+  unfold otherLookup
+  rcases hok with rfl | hc
+  · rw [hk] at hs; cases hs
+  · simp only [hc, Bool.false_eq_true, ↓reduceIte]; exact hs
 
+theorem fieldDatum_none (im : List (Bytes × IdxEntry)) (vm : List (Bytes × JV)) (k : Bytes) (e : IdxEntry)
+    (hn : ∀ c ∈ candidates k e.name, (c = k ∨ claimedName im k c = false) → jvLookup vm c = none) :
+    fieldDatum im vm k e = none := by
+  simp only [fieldDatum, hn k (by simp [candidates]) (Or.inl rfl),
+    otherLookup_none im vm k e.name (hn e.name (by simp [candidates])),
+    otherLookup_none im vm k (lowerFirst e.name) (hn _ (by simp [candidates])),
+    otherLookup_none im vm k (asciiLowerAll (lowerFirst e.name)) (hn _ (by simp [candidates]))]
 
 theorem mem_of_mem_takeWhile {α : Type} (p : α → Bool) : ∀ (l : List α) (c : α), c ∈ l.takeWhile p → c ∈ l
   | [], _, h => by simp at h
@@ -365,9 +365,26 @@ theorem sat_of_mem_takeWhile {α : Type} (p : α → Bool) : ∀ (l : List α) (
       · exact sat_of_mem_takeWhile p r c h'
     · simp at h
 
-theorem triedKeys_all (o : Opts) (h : FieldHdr) (k : Bytes) (hh : planKeyOf o h = none ∨ tagOmitOf o h = true) :
-    triedKeys o h k = candidates k h.name := by
-  unfold triedKeys
+/-- `triedKeys` before the claimed names are filtered out -/
+def triedBase (o : Opts) (h : FieldHdr) (k : Bytes) : List Bytes :=
+  match planKeyOf o h with
+  | some pk => if tagOmitOf o h then candidates k h.name else pk :: (candidates k h.name).takeWhile (· != pk)
+  | none => candidates k h.name
+
+theorem triedKeys_eq (o : Opts) (fs : List (FieldHdr × GoType)) (h : FieldHdr) (k : Bytes) :
+    triedKeys o fs h k = (triedBase o h k).filter fun c => c == k || !isIdxKey fs c := rfl
+
+theorem mem_tried (o : Opts) (fs : List (FieldHdr × GoType)) (h : FieldHdr) (k c : Bytes)
+    (hb : c ∈ triedBase o h k) (hc : c = k ∨ isIdxKey fs c = false) : c ∈ triedKeys o fs h k := by
+  rw [triedKeys_eq, List.mem_filter]
+  refine ⟨hb, ?_⟩
+  rcases hc with rfl | hc
+  · simp
+  · simp [hc]
+
+theorem triedBase_all (o : Opts) (h : FieldHdr) (k : Bytes) (hh : planKeyOf o h = none ∨ tagOmitOf o h = true) :
+    triedBase o h k = candidates k h.name := by
+  unfold triedBase
   cases hp : planKeyOf o h with
   | none => rfl
   | some pk =>
@@ -375,39 +392,42 @@ theorem triedKeys_all (o : Opts) (h : FieldHdr) (k : Bytes) (hh : planKeyOf o h 
     · rw [hp] at hh; cases hh
     · simp [hh]
 
-theorem triedKeys_pk (o : Opts) (h : FieldHdr) (k pk : Bytes) (hp : planKeyOf o h = some pk)
-    (hin : pk ∈ candidates k h.name) : pk ∈ triedKeys o h k := by
-  unfold triedKeys
+theorem triedBase_pk (o : Opts) (h : FieldHdr) (k pk : Bytes) (hp : planKeyOf o h = some pk)
+    (hin : pk ∈ candidates k h.name) : pk ∈ triedBase o h k := by
+  unfold triedBase
   simp only [hp]
   split
   · exact hin
   · exact List.mem_cons_self
 
-theorem triedKeys_before (o : Opts) (h : FieldHdr) (k pk c : Bytes) (hp : planKeyOf o h = some pk)
-    (hc : c ∈ (candidates k h.name).takeWhile (· != pk)) : c ∈ triedKeys o h k := by
-  unfold triedKeys
+theorem triedBase_before (o : Opts) (h : FieldHdr) (k pk c : Bytes) (hp : planKeyOf o h = some pk)
+    (hc : c ∈ (candidates k h.name).takeWhile (· != pk)) : c ∈ triedBase o h k := by
+  unfold triedBase
   simp only [hp]
   split
   · exact mem_of_mem_takeWhile _ _ _ hc
   · exact List.mem_cons_of_mem _ hc
 
 /-- the ORDER of the lookups matters here: the member is found under `pk` as soon as every name tried
-BEFORE `pk` has no member -/
-theorem fieldDatum_some_ordered (vm : List (Bytes × JV)) (k : Bytes) (e : IdxEntry) (pk : Bytes) (m0 : JV)
-    (hs : jvLookup vm pk = some m0) (hin : pk ∈ candidates k e.name)
-    (hn : ∀ c ∈ (candidates k e.name).takeWhile (· != pk), jvLookup vm c = none) : fieldDatum vm k e = some m0 := by
+BEFORE `pk` (and not claimed by another index entry) has no member -/
+theorem fieldDatum_some_ordered (im : List (Bytes × IdxEntry)) (vm : List (Bytes × JV)) (k : Bytes) (e : IdxEntry)
+    (pk : Bytes) (m0 : JV)
+    (hs : jvLookup vm pk = some m0) (hin : pk ∈ candidates k e.name) (hpk : pk = k ∨ claimedName im k pk = false)
+    (hn : ∀ c ∈ (candidates k e.name).takeWhile (· != pk), (c = k ∨ claimedName im k c = false) → jvLookup vm c = none) :
+    fieldDatum im vm k e = some m0 := by
   simp only [fieldDatum]
   by_cases h1 : k = pk
   · rw [h1, hs]
-  · rw [hn k (by simp [candidates, List.takeWhile_cons, h1])]
+  · have hk0 : jvLookup vm k = none := hn k (by simp [candidates, List.takeWhile_cons, h1]) (Or.inl rfl)
+    rw [hk0]
     by_cases h2 : e.name = pk
-    · rw [h2, hs]
-    · rw [hn e.name (by simp [candidates, List.takeWhile_cons, h1, h2])]
+    · rw [h2, otherLookup_some im vm k pk m0 hpk hs hk0]
+    · rw [otherLookup_none im vm k e.name (hn e.name (by simp [candidates, List.takeWhile_cons, h1, h2]))]
       by_cases h3 : lowerFirst e.name = pk
-      · rw [h3, hs]
-      · rw [hn (lowerFirst e.name) (by simp [candidates, List.takeWhile_cons, h1, h2, h3])]
+      · rw [h3, otherLookup_some im vm k pk m0 hpk hs hk0]
+      · rw [otherLookup_none im vm k _ (hn (lowerFirst e.name) (by simp [candidates, List.takeWhile_cons, h1, h2, h3]))]
         by_cases h4 : asciiLowerAll (lowerFirst e.name) = pk
-        · rw [h4, hs]
+        · rw [h4, otherLookup_some im vm k pk m0 hpk hs hk0]
         · exfalso
           simp only [candidates, List.mem_cons, List.not_mem_nil, or_false] at hin
           rcases hin with h | h | h | h
@@ -421,28 +441,28 @@ theorem fieldDatum_some_ordered (vm : List (Bytes × JV)) (k : Bytes) (e : IdxEn
 /-- slot `p` holds a value equal (up to `norm`) to the original field value -/
 def SlotGood (vs : List GoVal) (p : Nat) (w : GoVal) : Prop := ∃ v, vs[p]? = some v ∧ norm w = norm v
 
-def EntOK (fs : List (FieldHdr × GoType)) (vs : List GoVal) (vm : List (Bytes × JV))
+def EntOK (im : List (Bytes × IdxEntry)) (fs : List (FieldHdr × GoType)) (vs : List GoVal) (vm : List (Bytes × JV))
     (setv : Registry → JV → GoType → IdxEntry → Step) (ke : Bytes × IdxEntry) : Prop :=
   ∃ p h t, fs[p]? = some (h, t) ∧ ke.2.index = [p] ∧ unexported h.name = false ∧
-    (((fieldDatum vm ke.1 ke.2 = none ∨ ∃ m, fieldDatum vm ke.1 ke.2 = some m ∧ isNull m = true) ∧
+    (((fieldDatum im vm ke.1 ke.2 = none ∨ ∃ m, fieldDatum im vm ke.1 ke.2 = some m ∧ isNull m = true) ∧
         SlotGood vs p (zeroVal 63 t)) ∨
-     (∃ m x, fieldDatum vm ke.1 ke.2 = some m ∧ isNull m = false ∧ (∀ r, setv r m t ke.2 = ⟨.ok x, r⟩) ∧ SlotGood vs p x))
+     (∃ m x, fieldDatum im vm ke.1 ke.2 = some m ∧ isNull m = false ∧ (∀ r, setv r m t ke.2 = ⟨.ok x, r⟩) ∧ SlotGood vs p x))
 
 def InvF (fs : List (FieldHdr × GoType)) (vs : List GoVal) (rem : List (Bytes × IdxEntry)) (ws : List GoVal) : Prop :=
   ws.length = fs.length ∧
     ∀ p h t, fs[p]? = some (h, t) →
       ∃ w, ws[p]? = some w ∧ (SlotGood vs p w ∨ (w = zeroVal 63 t ∧ ∃ ke ∈ rem, ke.2.index = [p]))
 
-theorem stepFields_flat (name pkg : Bytes) (fs : List (FieldHdr × GoType)) (vs : List GoVal) (vm : List (Bytes × JV))
+theorem stepFields_flat (im : List (Bytes × IdxEntry)) (name pkg : Bytes) (fs : List (FieldHdr × GoType)) (vs : List GoVal) (vm : List (Bytes × JV))
     (zero : GoType → GoVal) (setv : Registry → JV → GoType → IdxEntry → Step) :
     ∀ (I : List (Bytes × IdxEntry)) (ws : List GoVal),
-      (∀ ke ∈ I, EntOK fs vs vm setv ke) → InvF fs vs I ws →
+      (∀ ke ∈ I, EntOK im fs vs vm setv ke) → InvF fs vs I ws →
       ∃ ws', InvF fs vs [] ws' ∧
-        ∀ r, stepFields zero setv (.struct name pkg fs) vm r I (.struct ws) = ⟨.ok (.struct ws'), r⟩
+        ∀ r, stepFields im zero setv (.struct name pkg fs) vm r I (.struct ws) = ⟨.ok (.struct ws'), r⟩
   | [], ws, _, hinv => ⟨ws, hinv, fun _ => rfl⟩
   | (k, e) :: rest, ws, hent, hinv => by
     obtain ⟨p, h, t, hp, hidx, hu, hcase⟩ := hent (k, e) List.mem_cons_self
-    have hent' : ∀ ke ∈ rest, EntOK fs vs vm setv ke := fun ke hm => hent ke (List.mem_cons_of_mem _ hm)
+    have hent' : ∀ ke ∈ rest, EntOK im fs vs vm setv ke := fun ke hm => hent ke (List.mem_cons_of_mem _ hm)
     simp only at hidx hcase
     rcases hcase with ⟨hskip, hgood⟩ | ⟨m, x, hd, hnn, hset, hgood⟩
     · have hinv' : InvF fs vs rest ws := by
@@ -458,7 +478,7 @@ theorem stepFields_flat (name pkg : Bytes) (fs : List (FieldHdr × GoType)) (vs 
             rw [hp] at hp'; cases hp'
             exact Or.inl (hz ▸ hgood)
           · exact Or.inr ⟨hz, ke, hke, hki⟩
-      obtain ⟨ws', h2, h1⟩ := stepFields_flat name pkg fs vs vm zero setv rest ws hent' hinv'
+      obtain ⟨ws', h2, h1⟩ := stepFields_flat im name pkg fs vs vm zero setv rest ws hent' hinv'
       refine ⟨ws', h2, ?_⟩
       intro r
       rw [← h1 r]
@@ -482,7 +502,7 @@ theorem stepFields_flat (name pkg : Bytes) (fs : List (FieldHdr × GoType)) (vs 
             · simp only [hidx, List.cons.injEq, and_true] at hki
               exact absurd hki.symm hpp
             · exact Or.inr ⟨hz, ke, hke, hki⟩
-      obtain ⟨ws', h2, h1⟩ := stepFields_flat name pkg fs vs vm zero setv rest (listSet ws p x) hent' hinv'
+      obtain ⟨ws', h2, h1⟩ := stepFields_flat im name pkg fs vs vm zero setv rest (listSet ws p x) hent' hinv'
       refine ⟨ws', h2, ?_⟩
       intro r
       rw [← h1 r]
@@ -495,11 +515,33 @@ theorem structOK_noEmb {o : Opts} {fs : List (FieldHdr × GoType)} (hs : structO
   obtain ⟨p, hp⟩ := List.getElem?_of_mem hm
   have := structOK_at (h := ht.1) (t := ht.2) hs hp
   simp only [fieldOKAt, Bool.and_eq_true, Bool.not_eq_true'] at this
-  exact this.1.1
+  exact this.1
 
 theorem structOK_distinct {o : Opts} {fs : List (FieldHdr × GoType)} (hs : structOK o fs = true) : IdxDistinct fs := by
   intro p q h t h' t' k hp hq hpq hk
   exact (fieldOKAt_other (structOK_at hs hp) hk hq (fun e => hpq e.symm)).2
+
+/-- `im[c]` exists exactly when `c` is the index key of a field -/
+theorem any_key_iff (fs : List (FieldHdr × GoType)) (hne : NoEmb fs) (hdist : IdxDistinct fs) (c : Bytes) :
+    (indexFields fs 0).any (fun ke => ke.1 == c) = isIdxKey fs c := by
+  rw [Bool.eq_iff_iff]
+  simp only [List.any_eq_true, beq_iff_eq, isIdxKey]
+  constructor
+  · rintro ⟨ke, hke, hc⟩
+    obtain ⟨p, h, t, hp, hk, _⟩ := index_sound fs 0 hne ke hke
+    exact ⟨(h, t), List.mem_of_getElem? hp, by rw [hk, hc]⟩
+  · rintro ⟨ht, hm, hk⟩
+    obtain ⟨p, hp⟩ := List.getElem?_of_mem hm
+    have := index_complete fs 0 hne hdist p ht.1 ht.2 c hp hk
+    exact ⟨_, this, rfl⟩
+
+theorem claimed_iff (fs : List (FieldHdr × GoType)) (hne : NoEmb fs) (hdist : IdxDistinct fs) (k c : Bytes) :
+    (c = k ∨ claimedName (indexFields fs 0) k c = false) ↔ (c = k ∨ isIdxKey fs c = false) := by
+  unfold claimedName
+  rw [any_key_iff fs hne hdist c]
+  by_cases hck : c = k
+  · simp [hck]
+  · simp [hck]
 
 /-- One struct level, all fields plain: if every field value that is written and not null is
 recomposed to an equal value by `rec`, and every field that is not written, not indexed, or written as
@@ -510,9 +552,9 @@ theorem recStruct_flat (o : Opts) (enc : Bool → GoType → GoVal → JV)
     (hs : structOK o fs = true) (hlen : vs.length = fs.length)
     (hfld : ∀ (p : Nat) (h : FieldHdr) (t : GoType) (x : GoVal), fs[p]? = some (h, t) → vs[p]? = some x →
       ((idxKeyOf h = none ∨ planKeyOf o h = none ∨ (tagOmitOf o h && isEmptyVal x) = true ∨
-          isNull (enc (isIface t) t x) = true) → norm (zeroVal 63 t) = norm x) ∧
-      (∀ k pk, idxKeyOf h = some k → planKeyOf o h = some pk → isNull (enc (isIface t) t x) = false →
-          ∃ y, (∀ r e, rec r 2 (enc (isIface t) t x) t (some e) = ⟨.ok y, r⟩) ∧ norm y = norm x)) :
+          isNull (memberJV o enc h t x) = true) → norm (zeroVal 63 t) = norm x) ∧
+      (∀ k pk, idxKeyOf h = some k → planKeyOf o h = some pk → isNull (memberJV o enc h t x) = false →
+          ∃ y, (∀ r idx, rec r 2 (memberJV o enc h t x) t (some ⟨h.name, idx, h.tag⟩) = ⟨.ok y, r⟩) ∧ norm y = norm x)) :
     ∃ v', norm v' = norm (.struct vs) ∧
       ∀ r, recStruct composerPure rec r name pkg fs (.obj (createMember o name pkg ++ refPass o enc sub vs fs 0)) = ⟨.ok v', r⟩ := by
   have hne := structOK_noEmb hs
@@ -520,8 +562,8 @@ theorem recStruct_flat (o : Opts) (enc : Bool → GoType → GoVal → JV)
   let M := createMember o name pkg ++ refPass o enc sub vs fs 0
   -- every member under a name the recomposer tries for field `p` is the member of field `p`
   have hkey : ∀ (p : Nat) (h : FieldHdr) (t : GoType) (x : GoVal) (k : Bytes), fs[p]? = some (h, t) → vs[p]? = some x → idxKeyOf h = some k →
-      ∀ c ∈ triedKeys o h k, ∀ m, (c, m) ∈ M →
-        planKeyOf o h = some c ∧ (tagOmitOf o h && isEmptyVal x) = false ∧ m = enc (isIface t) t x := by
+      ∀ c ∈ triedKeys o fs h k, ∀ m, (c, m) ∈ M →
+        planKeyOf o h = some c ∧ (tagOmitOf o h && isEmptyVal x) = false ∧ m = memberJV o enc h t x := by
     intro p h t x k hp hx hk c hc m hm
     have hf := structOK_at hs hp
     rcases List.mem_append.1 hm with hm | hm
@@ -537,11 +579,7 @@ theorem recStruct_flat (o : Opts) (enc : Bool → GoType → GoVal → JV)
           cases h2
     · obtain ⟨q, h', t', x', hq, hu', hx', hmem⟩ := (refPass_mem o enc sub vs fs 0 hne (c, m)).1 hm
       simp only [Nat.zero_add] at hx'
-      have hf' := structOK_at hs hq
-      have hs' : asStrOf o h' = false := by
-        simp only [fieldOKAt, Bool.and_eq_true, Bool.not_eq_true'] at hf'
-        exact hf'.1.2
-      rw [refField_eq o enc h' t' x' hu' hs'] at hmem
+      rw [refField_eq o enc h' t' x' hu'] at hmem
       cases hpk : planKeyOf o h' with
       | none => simp [hpk] at hmem
       | some pk' =>
@@ -556,7 +594,7 @@ theorem recStruct_flat (o : Opts) (enc : Bool → GoType → GoVal → JV)
             rw [hx] at hx'; cases hx'
             exact ⟨hpk, by simpa using hom, rfl⟩
           · exact absurd hc ((fieldOKAt_other hf hk hq hqp).1 c hpk)
-  have hent : ∀ ke ∈ indexFields fs 0, EntOK fs vs M (fun r'' m ft e => rec r'' 2 m ft (some e)) ke := by
+  have hent : ∀ ke ∈ indexFields fs 0, EntOK (indexFields fs 0) fs vs M (fun r'' m ft e => rec r'' 2 m ft (some e)) ke := by
     intro ke hke
     obtain ⟨p, h, t, hp, hk, he⟩ := index_sound fs 0 hne ke hke
     obtain ⟨k, e⟩ := ke
@@ -572,23 +610,20 @@ theorem recStruct_flat (o : Opts) (enc : Bool → GoType → GoVal → JV)
       exact ⟨vs[p], List.getElem?_eq_getElem this⟩
     have hk' := hkey p h t x k hp hx hk
     have hf := structOK_at hs hp
-    have hs' : asStrOf o h = false := by
-      simp only [fieldOKAt, Bool.and_eq_true, Bool.not_eq_true'] at hf
-      exact hf.1.2
     refine ⟨p, h, t, hp, rfl, hu, ?_⟩
     have hnone : (planKeyOf o h = none ∨ (tagOmitOf o h && isEmptyVal x) = true) →
-        fieldDatum M k ⟨h.name, [p], h.tag⟩ = none := by
+        fieldDatum (indexFields fs 0) M k ⟨h.name, [p], h.tag⟩ = none := by
       intro hor
-      have hall : triedKeys o h k = candidates k h.name := by
-        apply triedKeys_all
+      have hall : triedBase o h k = candidates k h.name := by
+        apply triedBase_all
         rcases hor with h | h
         · exact Or.inl h
         · simp only [Bool.and_eq_true] at h; exact Or.inr h.1
       apply fieldDatum_none
-      intro c hc
+      intro c hc hcl
       apply jvLookup_none_of_not_mem
       intro m hm
-      obtain ⟨h1, h2, _⟩ := hk' c (hall ▸ hc) m hm
+      obtain ⟨h1, h2, _⟩ := hk' c (mem_tried o fs h k c (hall ▸ hc) ((claimed_iff fs hne hdist k c).1 hcl)) m hm
       rcases hor with h | h
       · rw [h] at h1; cases h1
       · rw [h] at h2; cases h2
@@ -598,34 +633,42 @@ theorem recStruct_flat (o : Opts) (enc : Bool → GoType → GoVal → JV)
     | some pk =>
       by_cases hom : (tagOmitOf o h && isEmptyVal x) = true
       · exact Or.inl ⟨Or.inl (hnone (Or.inr hom)), x, hx, ((hfld p h t x hp hx).1 (Or.inr (Or.inr (Or.inl hom))))⟩
-      · have hmemM : (pk, enc (isIface t) t x) ∈ M := by
+      · have hmemM : (pk, memberJV o enc h t x) ∈ M := by
           apply List.mem_append_right
           apply (refPass_mem o enc sub vs fs 0 hne _).2
           refine ⟨p, h, t, x, hp, hu, by simpa using hx, ?_⟩
-          rw [refField_eq o enc h t x hu hs']
+          rw [refField_eq o enc h t x hu]
           simp [hpk, hom]
-        have hpkc : pk ∈ candidates k h.name := by
+        have hpkc : pk ∈ candidates k h.name ∧ pk ∈ triedKeys o fs h k := by
           simp only [fieldOKAt, hk, hpk, Bool.and_eq_true] at hf
-          exact List.contains_iff_mem.1 hf.2.1.1
-        have hd : fieldDatum M k ⟨h.name, [p], h.tag⟩ = some (enc (isIface t) t x) := by
-          apply fieldDatum_some_ordered M k _ pk _ _ hpkc
-          · intro c hc
+          exact ⟨List.contains_iff_mem.1 hf.2.1.1.1, List.contains_iff_mem.1 hf.2.1.1.2⟩
+        have hpkcl : pk = k ∨ claimedName (indexFields fs 0) k pk = false := by
+          apply (claimed_iff fs hne hdist k pk).2
+          have := hpkc.2
+          rw [triedKeys_eq, List.mem_filter] at this
+          have h2 := this.2
+          simp only [Bool.or_eq_true, beq_iff_eq, Bool.not_eq_true'] at h2
+          exact h2
+        have hd : fieldDatum (indexFields fs 0) M k ⟨h.name, [p], h.tag⟩ = some (memberJV o enc h t x) := by
+          apply fieldDatum_some_ordered (indexFields fs 0) M k _ pk _ _ hpkc.1 hpkcl
+          · intro c hc hcl
             apply jvLookup_none_of_not_mem
             intro m hm
-            obtain ⟨h1, _, _⟩ := hk' c (triedKeys_before o h k pk c hpk hc) m hm
+            obtain ⟨h1, _, _⟩ := hk' c (mem_tried o fs h k c (triedBase_before o h k pk c hpk hc)
+              ((claimed_iff fs hne hdist k c).1 hcl)) m hm
             rw [hpk] at h1
             have hne' := sat_of_mem_takeWhile _ _ _ hc
             simp only [bne_iff_ne, ne_eq] at hne'
             exact hne' (Option.some.inj h1).symm
           · apply jvLookup_some_of_unique M pk _ hmemM
             intro m hm
-            exact (hk' pk (triedKeys_pk o h k pk hpk hpkc) m hm).2.2
-        cases hnull : isNull (enc (isIface t) t x) with
+            exact (hk' pk hpkc.2 m hm).2.2
+        cases hnull : isNull (memberJV o enc h t x) with
         | true =>
           exact Or.inl ⟨Or.inr ⟨_, hd, hnull⟩, x, hx, ((hfld p h t x hp hx).1 (Or.inr (Or.inr (Or.inr hnull))))⟩
         | false =>
           obtain ⟨y, hy, hyn⟩ := (hfld p h t x hp hx).2 k pk hk hpk hnull
-          exact Or.inr ⟨_, y, hd, hnull, fun r => hy r _, x, hx, hyn⟩
+          exact Or.inr ⟨_, y, hd, hnull, fun r => hy r [p], x, hx, hyn⟩
   have hinv : InvF fs vs (indexFields fs 0) (fs.map fun ht => zeroVal 63 ht.2) := by
     refine ⟨by simp, ?_⟩
     intro p h t hp
@@ -638,7 +681,7 @@ theorem recStruct_flat (o : Opts) (enc : Bool → GoType → GoVal → JV)
     | some k =>
       refine Or.inr ⟨rfl, _, index_complete fs 0 hne hdist p h t k hp hk, ?_⟩
       simp
-  obtain ⟨ws', h2, h1⟩ := stepFields_flat name pkg fs vs M (zeroVal fuelZ) (fun r'' m ft e => rec r'' 2 m ft (some e))
+  obtain ⟨ws', h2, h1⟩ := stepFields_flat (indexFields fs 0) name pkg fs vs M (zeroVal fuelZ) (fun r'' m ft e => rec r'' 2 m ft (some e))
     (indexFields fs 0) _ hent hinv
   refine ⟨.struct ws', ?_, ?_⟩
   · simp only [norm, normL_eq_map, GoVal.struct.injEq]
@@ -828,6 +871,184 @@ theorem isIface_hs (o : Opts) (t : GoType) : (isIface t && o.strict && isSliceIf
   | false => rfl
   | true => cases t <;> simp [isIface] at ht; simp [isSliceIface]
 
+/-! ### the `,string` option: `strconv.Atoi` of the text the encoder writes, and the tag test of `setValue` -/
+
+theorem digit_byte : ∀ d, d < 10 → isDigit (d.digitChar.toNat.toUInt8) = true ∧ (d.digitChar.toNat.toUInt8).toNat - 48 = d := by
+  decide
+
+theorem natOfDigits_append : ∀ (l1 l2 : Bytes) (acc : Nat),
+    natOfDigits (l1 ++ l2) acc = (natOfDigits l1 acc).bind (natOfDigits l2)
+  | [], l2, acc => rfl
+  | c :: r, l2, acc => by
+    simp only [List.cons_append, natOfDigits]
+    split
+    · exact natOfDigits_append r l2 _
+    · rfl
+
+def toB (cs : List Char) : Bytes := cs.map fun c => c.toNat.toUInt8
+
+theorem natOfDigits_single (d acc : Nat) (hd : d < 10) : natOfDigits (toB (Nat.toDigits 10 d)) acc = some (acc * 10 + d) := by
+  rw [Nat.toDigits_of_lt_base hd]
+  obtain ⟨h1, h2⟩ := digit_byte d hd
+  simp only [toB, List.map_cons, List.map_nil, natOfDigits, h1, ↓reduceIte, h2]
+
+theorem natOfDigits_toDigits (n : Nat) : natOfDigits (toB (Nat.toDigits 10 n)) 0 = some n := by
+  induction n using Nat.strongRecOn with
+  | _ n ih =>
+    by_cases hn : n < 10
+    · rw [natOfDigits_single n 0 hn]; simp
+    · have hq : 0 < n / 10 := by omega
+      have hr : n % 10 < 10 := by omega
+      have hsplit := Nat.toDigits_append_toDigits (b := 10) (n := n / 10) (d := n % 10) (by omega) hq hr
+      have hn' : 10 * (n / 10) + n % 10 = n := by omega
+      rw [hn'] at hsplit
+      rw [← hsplit]
+      simp only [toB, List.map_append]
+      rw [natOfDigits_append]
+      have := ih (n / 10) (by omega)
+      simp only [toB] at this
+      rw [this]
+      simp only [Option.bind_some]
+      have h2 := natOfDigits_single (n % 10) (n / 10) hr
+      simp only [toB] at h2
+      rw [h2]
+      congr 1
+      omega
+
+theorem toB_toDigits_ne_nil (m : Nat) : toB (Nat.toDigits 10 m) ≠ [] := by
+  intro h
+  have := congrArg List.length h
+  simp only [toB, List.length_map, List.length_nil] at this
+  exact Nat.toDigits_ne_nil (List.eq_nil_of_length_eq_zero this)
+
+theorem atoi_intText (i : Int) : atoi (intText i) = some i := by
+  cases i with
+  | ofNat m =>
+    have hs : intText (Int.ofNat m) = toB (Nat.toDigits 10 m) := by
+      show toB (toString m).toList = _
+      rw [Nat.toString_eq_repr, Nat.toList_repr]
+    rw [hs]
+    have hk := natOfDigits_toDigits m
+    have hne := toB_toDigits_ne_nil m
+    generalize toB (Nat.toDigits 10 m) = s at hk hne
+    cases s with
+    | nil => exact absurd rfl hne
+    | cons c r =>
+      have hd : isDigit c = true := by
+        cases hc : isDigit c with
+        | true => rfl
+        | false => simp [natOfDigits, hc] at hk
+      have hc45 : c ≠ 45 := by
+        intro h; subst h; revert hd; decide
+      simp only [atoi, hc45, ↓reduceIte, hk]
+      rfl
+  | negSucc m =>
+    have hs : intText (Int.negSucc m) = 45 :: toB (Nat.toDigits 10 (m + 1)) := by
+      show toB ("-" ++ (m + 1).repr).toList = _
+      rw [String.toList_append, Nat.toList_repr]
+      rfl
+    rw [hs]
+    have hk := natOfDigits_toDigits (m + 1)
+    have hne := toB_toDigits_ne_nil (m + 1)
+    have hemp : (toB (Nat.toDigits 10 (m + 1))).isEmpty = false := by
+      cases h : toB (Nat.toDigits 10 (m + 1)) with
+      | nil => exact absurd h hne
+      | cons _ _ => rfl
+    simp only [atoi, ↓reduceIte, hemp, Bool.false_eq_true, hk]
+    rfl
+
+
+theorem splitComma_ne_nil : ∀ tag : Bytes, splitComma tag ≠ []
+  | [] => by simp [splitComma]
+  | c :: r => by
+    simp only [splitComma]
+    split
+    · simp
+    · split <;> simp
+
+/-- the first part of a tag is a prefix of the tag -/
+theorem splitComma_head_prefix : ∀ (tag p : Bytes) (ps : List Bytes), splitComma tag = p :: ps → ∃ rest, tag = p ++ rest
+  | [], p, ps, h => by simp [splitComma] at h; exact ⟨[], by simp [h.1]⟩
+  | c :: r, p, ps, h => by
+    simp only [splitComma] at h
+    by_cases hc : c = 44
+    · simp only [hc, ↓reduceIte, List.cons.injEq] at h
+      exact ⟨c :: r, by simp [← h.1]⟩
+    · simp only [hc, ↓reduceIte] at h
+      cases hsr : splitComma r with
+      | nil => exact absurd hsr (splitComma_ne_nil r)
+      | cons p' ps' =>
+        rw [hsr] at h
+        simp only [List.cons.injEq] at h
+        obtain ⟨rest, hrest⟩ := splitComma_head_prefix r p' ps' hsr
+        exact ⟨rest, by rw [← h.1, hrest]; rfl⟩
+
+def strPat : Bytes := [44, 115, 116, 114, 105, 110, 103]
+
+/-- an option `string` after the first comma shows as the substring `,string` -/
+theorem strPat_infix : ∀ (tag : Bytes), sString ∈ (splitComma tag).tail →
+    ∃ i, i ≤ tag.length ∧ (tag.drop i).take strPat.length = strPat
+  | [], h => by simp [splitComma] at h
+  | c :: r, h => by
+    have lift : (∃ i, i ≤ r.length ∧ (r.drop i).take strPat.length = strPat) →
+        ∃ i, i ≤ (c :: r).length ∧ ((c :: r).drop i).take strPat.length = strPat := by
+      rintro ⟨i, hi, hd⟩
+      exact ⟨i + 1, by simp; omega, by simpa using hd⟩
+    simp only [splitComma] at h
+    by_cases hc : c = 44
+    · simp only [hc, ↓reduceIte, List.tail_cons] at h
+      cases hsr : splitComma r with
+      | nil => exact absurd hsr (splitComma_ne_nil r)
+      | cons p' ps' =>
+        rw [hsr] at h
+        rcases List.mem_cons.1 h with h | h
+        · obtain ⟨rest, hrest⟩ := splitComma_head_prefix r p' ps' hsr
+          refine ⟨0, by omega, ?_⟩
+          rw [hc, hrest, ← h]
+          simp [strPat, sString]
+        · exact lift (strPat_infix r (by rw [hsr]; exact h))
+    · simp only [hc, ↓reduceIte] at h
+      cases hsr : splitComma r with
+      | nil => exact absurd hsr (splitComma_ne_nil r)
+      | cons p' ps' =>
+        rw [hsr] at h
+        exact lift (strPat_infix r (by rw [hsr]; exact h))
+
+theorem asStr_tagHasString (o : Opts) (h : FieldHdr) (ha : asStrOf o h = true) : tagHasString h.tag = true := by
+  unfold asStrOf tagView at ha
+  split at ha
+  · rename_i r heq
+    split at heq
+    · unfold parseTag at heq
+      cases hsp : splitComma h.tag with
+      | nil => exact absurd hsp (splitComma_ne_nil _)
+      | cons p opts =>
+        rw [hsp] at heq
+        simp only at heq
+        split at heq
+        · cases heq
+        · simp only [Option.some.injEq] at heq
+          rw [← heq] at ha
+          simp only at ha
+          have hmem : sString ∈ (splitComma h.tag).tail := by
+            rw [hsp]; exact List.contains_iff_mem.1 ha
+          obtain ⟨i, hi, hd⟩ := strPat_infix h.tag hmem
+          unfold tagHasString
+          rw [List.any_eq_true]
+          exact ⟨i, List.mem_range.2 (by omega), by simpa [strPat] using hd⟩
+    · simp only [Option.some.injEq] at heq
+      rw [← heq] at ha
+      cases ha
+  · cases ha
+
+theorem strSlot_bool (b : Bool) (e : IdxEntry) (htag : tagHasString e.tag = true) :
+    scalarSlot .bool (.str (if b then sTrue else sFalse)) (some e) = .ok (.bool b) := by
+  cases b <;> simp [scalarSlot, htag, sTrue, sFalse]
+
+theorem strSlot_int (k : Nat) (i : Int) (e : IdxEntry) (htag : tagHasString e.tag = true) (hw : wrapInt k i = i) :
+    scalarSlot (.int k) (.str (intText i)) (some e) = .ok (.int i) := by
+  simp [scalarSlot, htag, atoi_intText, hw]
+
 abbrev pureCF : Nat → ComposerFor := fun _ => composerPure
 
 /-- `elemStep` on a pointer element is one level of `recomp` in mode 2 -/
@@ -840,6 +1061,34 @@ theorem mapElemStep_eq (ck : Bytes) (f : Nat) (e : GoType) (he : isIface e = fal
     mapElemStep (recompG pureCF ck f) e r j =
       if isPtrT e then recompG pureCF ck (f + 1) r 2 j e none else recompG pureCF ck f r 1 j e none := by
   cases e <;> simp [mapElemStep, isPtrT, recompG, recBody] <;> simp [isIface] at he
+
+/-- a bool or integer field written as a string under the `,string` option is read back by `setValue` -/
+theorem strMember_ok (o : Opts) (ck : Bytes) (vf f : Nat) (h : FieldHdr) (t : GoType) (x : GoVal) (s : Bytes)
+    (hrt : rtOK o vf t x = true) (ha : asStrOf o h = true) (hfl : isFloatT t = false) (hs : scalarText x = some s)
+    (hf : vf ≤ f) (r : Registry) (idx : List Nat) :
+    recompG pureCF ck f r 2 (.str s) t (some ⟨h.name, idx, h.tag⟩) = ⟨.ok x, r⟩ := by
+  have htag : tagHasString (IdxEntry.mk h.name idx h.tag).tag = true := asStr_tagHasString o h ha
+  cases vf with
+  | zero => simp [rtOK] at hrt
+  | succ vf' =>
+    cases f with
+    | zero => omega
+    | succ f' =>
+      cases x with
+      | bool b =>
+        cases t <;> simp only [rtOK, Bool.false_eq_true] at hrt
+        simp only [scalarText, Option.some.injEq] at hs
+        subst hs
+        simp [recompG, recBody, isNull, strSlot_bool b _ htag]
+      | int i =>
+        cases t <;> simp only [rtOK, Bool.false_eq_true, beq_iff_eq] at hrt
+        simp only [scalarText, Option.some.injEq] at hs
+        subst hs
+        simp [recompG, recBody, isNull, strSlot_int _ i _ htag hrt]
+      | flt ft =>
+        cases t <;> simp only [rtOK, Bool.false_eq_true] at hrt
+        simp [isFloatT] at hfl
+      | _ => simp [scalarText] at hs
 
 /-- **Recompose inverts the reference encoding**, core induction (no `interface{}` slots, `[]byte`,
 embedded fields or `,string`: `rtOK` excludes them): with an ideal registry, recomposing the tree the
@@ -1036,25 +1285,55 @@ theorem rt_core (o : Opts) (tf' : Nat) :
           name pkg fs vs hok.1 hlen (by
             intro p h t x hp hx
             have hc := hflds p h t x hp hx
-            constructor
-            · intro hor
-              cases hk : idxKeyOf h with
-              | none => simp only [fieldChk, hk] at hc; exact zeroLike_norm t x hc
-              | some k =>
-                cases hpk : planKeyOf o h with
-                | none => simp only [fieldChk, hk, hpk] at hc; exact zeroLike_norm t x hc
-                | some pk =>
-                  simp only [fieldChk, hk, hpk] at hc
-                  rcases hor with h1 | h1 | h1 | h1
-                  · rw [hk] at h1; cases h1
-                  · rw [hpk] at h1; cases h1
-                  · simp only [Bool.and_eq_true] at h1
-                    exact empty_norm_zero o vf' t x hc h1.2
-                  · exact null_is_zero o (tf' + 1) vf' (isIface t) t (isIface_hs o t) x hc h1
-            · intro k pk hk hpk _
-              simp only [fieldChk, hk, hpk] at hc
-              obtain ⟨y, hy, hr⟩ := IH f' hf' (isIface t) t x (isIface_hs o t) hc
-              exact ⟨y, fun r e => hr r (some e) 2 (Or.inr rfl), hy⟩)
+            cases hk : idxKeyOf h with
+            | none =>
+              simp only [fieldChk, hk] at hc
+              exact ⟨fun _ => zeroLike_norm t x hc, fun k pk hk' => by cases hk'⟩
+            | some k =>
+              cases hpk : planKeyOf o h with
+              | none =>
+                simp only [fieldChk, hk, hpk] at hc
+                exact ⟨fun _ => zeroLike_norm t x hc, fun k pk _ hpk' => by cases hpk'⟩
+              | some pk =>
+                simp only [fieldChk, hk, hpk, Bool.and_eq_true, Bool.not_eq_true'] at hc
+                obtain ⟨hfl, hrt⟩ := hc
+                cases hst : (if asStrOf o h = true then scalarText x else none) with
+                | none =>
+                  have hm : memberJV o (fun vi ft fv => refVal o (tf' + 1) vf' vi ft fv) h t x =
+                      refVal o (tf' + 1) vf' (isIface t) t x := by
+                    unfold memberJV; rw [hst]
+                  rw [hm]
+                  constructor
+                  · intro hor
+                    rcases hor with h1 | h1 | h1 | h1
+                    · cases h1
+                    · cases h1
+                    · simp only [Bool.and_eq_true] at h1
+                      exact empty_norm_zero o vf' t x hrt h1.2
+                    · exact null_is_zero o (tf' + 1) vf' (isIface t) t (isIface_hs o t) x hrt h1
+                  · intro _ _ _ _ _
+                    obtain ⟨y, hy, hr⟩ := IH f' hf' (isIface t) t x (isIface_hs o t) hrt
+                    exact ⟨y, fun r idx => hr r (some _) 2 (Or.inr rfl), hy⟩
+                | some s =>
+                  have hm : memberJV o (fun vi ft fv => refVal o (tf' + 1) vf' vi ft fv) h t x = .str s := by
+                    unfold memberJV; rw [hst]
+                  have ha : asStrOf o h = true := by
+                    cases ha : asStrOf o h with
+                    | true => rfl
+                    | false => simp [ha] at hst
+                  have hsx : scalarText x = some s := by simpa [ha] using hst
+                  have hft : isFloatT t = false := by simpa [ha] using hfl
+                  rw [hm]
+                  constructor
+                  · intro hor
+                    rcases hor with h1 | h1 | h1 | h1
+                    · cases h1
+                    · cases h1
+                    · simp only [Bool.and_eq_true] at h1
+                      exact empty_norm_zero o vf' t x hrt h1.2
+                    · cases h1
+                  · intro _ _ _ _ _
+                    exact ⟨x, fun r idx => strMember_ok o o.createKey vf' f' h t x s hrt ha hft hsx hf' r idx, rfl⟩)
         refine ⟨v', hv', ?_⟩
         intro r sf mode hm
         have hrv : refVal o (tf' + 1) (vf' + 1) vi (.struct name pkg fs) (.struct vs) =
